@@ -19,7 +19,7 @@ func init() {
 		id:    "C06",
 		level: "other",
 		explain: "Absence of explicit crash paths from file content, decided on the call graph and SSA program: (P06-panics / P06-partial) every explicit panic reachable from both Parse implementations, the read-only commands, the error prettifier and the JSON serialiser is discharged by a guard contradiction, a precondition established at every reachable call site (bounded-integer domain), closed construction, a proof of another rule, or a reasoned exception keyed by function and panic identity; any other (new) reachable panic is a violation; " +
-			"(P06-errpanic) no panic is control-dependent on the error of strconv.Atoi unless the digit group it parses is bounded by its regular expression; (P06-runewidth) a byte offset formed as index + len(string(rune)) is never used to slice the string being ranged over; " +
+			"(P06-errpanic) no panic is control-dependent on the error of strconv.Atoi unless the digit group it parses is bounded by its regular expression; (P06-runewidth) a byte offset formed as index + len(string(rune)) (or utf8.RuneLen of the rune) is never used to slice the string being ranged over nor compared with a position in it (the end-of-text test); " +
 			"(P06-shape) mapParse appends one value, one block and one error list per iteration and the parallel merge appends values and blocks pairwise; (P06-linetext = P10-epoch) the line stored in an error is a line of its block. " +
 			"Not covered: implicit panics in general (index/slice bounds, nil dereference, negative Repeat counts, make) beyond the named patterns; termination; resource exhaustion.",
 		rules: []ruleFn{ruleP06Panics, ruleP06NilRecord, ruleP06PrintWidth, ruleP06RuneWidth, ruleP06Shape, ruleP08LoopExit, ruleP07SliceGuard, ruleP10Epoch},
